@@ -40,13 +40,13 @@ def describe(tier):
         "through ContextCpu; cuda through the real ContextCupy (block sizes 1, 2, 4 and default 256) and opencl through the real ContextPyopencl, devices "
         "replaced by host builds of the real specialised text. n in {0,1,2,3,5,8,9} (+ {255,256,257,513} with block 256). Oracle: each block's counter is "
         "exactly its increment count on [0,n) and 0 on a guard band beyond; restricted lines, defines and includes are active exactly on the named targets; "
-        "unannotated lines appear verbatim and in order in every specialised text; all targets agree. Launch-geometry histories: on every built kernel "
+        "unannotated lines appear verbatim and in order in every specialised text; all targets agree. Second build: the skeletons of a shard that include a file are built again in the same process from another folder whose included files have the same names and another content. Launch-geometry histories: on every built kernel "
         "the thread count is then changed with set_n_threads through fixed numbers that grow and shrink (4, 13, 0, 5, 1; 257, 3, 256 with block 256) and back to "
         "the argument name, with a call and the same oracle after every change.",
         bounds=dict(skeletons=len(list(skeletons(tier))), n=SMALL_N + BIG_N, cuda_block_sizes=[1, 2, 4, 256], guard_band=GUARD),
         assumptions=["statements outside vectorised blocks run once per work-item on GPU targets by design: only idempotent statements are placed there and they are compared for n >= 1",
                      "device compilers and schedulers are replaced by clang -x cl / g++ host builds driven sequentially"],
-        must_fire=["cpu_serial", "cpu_openmp", "cpu_openmp_auto", "cuda", "opencl", "passthrough", "set_n_threads"],
+        must_fire=["cpu_serial", "cpu_openmp", "cpu_openmp_auto", "cuda", "opencl", "passthrough", "set_n_threads", "second-build"],
     )
 
 
@@ -100,8 +100,9 @@ def skeletons(tier):
                     yield dict(id=sid, prefix=pre, blocks=[dict(spell=sp1, var="ii", body=b1, ctr=0), dict(spell=sp2, var="ii" if same else "jj", body=b2, ctr=1)])
 
 
-def render(sk, incdir):
-    """source text of one skeleton + what it must do.  Returns (lines, expect)"""
+def render(sk, incdir, variant=0):
+    """source text of one skeleton + what it must do.  Returns (lines, expect).
+    variant 1 = the same skeleton whose included file (same NAME, another folder) has another content"""
     k = sk["id"]
     name = "kk_%d" % k
     lines = []
@@ -118,7 +119,7 @@ def render(sk, incdir):
             exp["define"] = p[1]
         elif p[0] == "include":
             fn = "inc_%d.h" % k
-            Y = XSETS[(k + 2) % len(XSETS)]
+            Y = XSETS[(k + 2 + 3 * variant) % len(XSETS)]
             with open(os.path.join(incdir, fn), "w") as f:
                 # the included file itself carries a context-restricted line
                 f.write("#define INC_%d 1\n#define INCR_%d 1 //only_for_context %s\n" % (k, k, xs(Y)))
@@ -348,11 +349,18 @@ def run_shard(sks, tier, seed):
         res.violations.append(common.violation(oracle, failure, f, dict(skeleton=sk, **extra), detail))
 
     try:
-        srcdir = os.path.join(work, "src")
+      for variant in (0, 1):
+        # variant 1: a second build in the same process of the skeletons that include a file; the included files have
+        # the same names, live in another folder and have another content (what a build reads must be what is there now)
+        if variant == 1:
+            sks = [sk for sk in sks if any(p[0] == "include" for p in sk["prefix"])][:6]
+            if not sks:
+                break
+        srcdir = os.path.join(work, "src%d" % variant)
         os.makedirs(srcdir)
         texts, exps = [], {}
         for sk in sks:
-            lines, exp = render(sk, srcdir)
+            lines, exp = render(sk, srcdir, variant)
             texts.append("\n".join(lines))
             exps[exp["name"]] = (sk, exp)
         src_path = os.path.join(srcdir, "kern.c")
@@ -363,6 +371,8 @@ def run_shard(sks, tier, seed):
         ctxs = [("cpu_serial", "cpu_serial", xo.ContextCpu(0), None), ("cpu_openmp", "cpu_openmp", xo.ContextCpu(omp_num_threads=2), None), ("cpu_openmp_auto", "cpu_openmp", xo.ContextCpu(omp_num_threads="auto"), None)]
         ctxs += [("cuda", "cuda", cuda[bs], bs) for bs in (1, 2, 4, 256)]
         ctxs += [("opencl", "opencl", ocl, None)]
+        if variant == 1:
+            ctxs = [c for c in ctxs if c[0] in ("cpu_serial", "opencl") or (c[0] == "cuda" and c[3] == 2)]
         cwd = os.getcwd()
         for label, target, ctx, bs in ctxs:
             os.chdir(work)
@@ -438,6 +448,9 @@ def run_shard(sks, tier, seed):
                             break
                         res.outcomes["ok-history:" + label] += 1
                     disp.set_n_threads("n")
+        if variant == 1:
+            res.events["second-build"] += len(sks)
+            continue
         res.cases = len(sks)
         res.states = res.nontrivial = len(sks)
         res.max_depth = 1
